@@ -128,16 +128,19 @@ def loopUp {α : Type} : Nat → (Nat → α → α) → α → α
 
 /-! ## raw matrices -/
 
-/-- a matrix of extended rationals.  (A structure around the lookup function rather than the bare
-function type, so that the compiled code evaluates a stored value once, when it is stored.) -/
+/-- a matrix of extended rationals: the lookup function.  (The second, constant field only keeps the
+compiler from representing `Mat` by the bare function type: with a bare function type every
+`Mat`-valued loop body is eta-expanded and a stored value is re-evaluated at every lookup —
+exponential time in the driver.  It carries no information.) -/
 structure Mat where
   f : Nat → Nat → ExtRat
+  barrier : Unit := ()
 
 instance : CoeFun Mat (fun _ => Nat → Nat → ExtRat) := ⟨Mat.f⟩
 
 namespace Mat
 
-def set (m : Mat) (i j : Nat) (v : ExtRat) : Mat := ⟨fun a b => if a = i ∧ b = j then v else m a b⟩
+def set (m : Mat) (i j : Nat) (v : ExtRat) : Mat := { f := fun a b => if a = i ∧ b = j then v else m a b }
 
 @[simp] theorem set_apply (m : Mat) (i j : Nat) (v : ExtRat) (a b : Nat) :
     (m.set i j v) a b = if a = i ∧ b = j then v else m a b := rfl
@@ -646,7 +649,7 @@ def linEval (e : Nat → Int) (x : Nat → Rat) : Nat → Rat
 /-! ## building and printing matrices (driver, examples) -/
 
 /-- matrix from rows; missing entries are `+∞` -/
-def Mat.ofLists (rows : List (List ExtRat)) : Mat := ⟨fun i j => (rows.getD i []).getD j pinf⟩
+def Mat.ofLists (rows : List (List ExtRat)) : Mat := { f := fun i j => (rows.getD i []).getD j pinf }
 
 /-- the first `rows` rows, row `i` up to column `rowLen i` -/
 def Mat.toLists (rows : Nat) (rowLen : Nat → Nat) (m : Mat) : List (List ExtRat) :=
